@@ -5,13 +5,13 @@
   Heap abstraction: Go shares `*Organism` between `Population.Organisms` and `Species.Organisms`, and
   `Organism.Species` points back.  The model stores organisms inside their species; `Pop.organisms` is the
   list of their allocation ids (`uid`, a ghost field) in the order of `Population.Organisms`.
-  `sort.Sort` is Go's insertion sort for slices of at most 12 elements (stable); for longer slices the
-  order of elements that compare equal is unspecified — `sortHasTie` lets the driver skip exact
-  co-simulation of such scenarios (DESIGN §2.4).
+  `sort.Sort` is modelled by `goSort` (Model/GoSort.lean): Go's insertion sort for slices of at most 12
+  elements (stable), a checked transliteration of Go 1.23's pdqsort for longer ones (ties included).
 -/
 import GoNeat.Model.Mutate
 import GoNeat.Model.Mate
 import GoNeat.Model.Compat
+import GoNeat.Model.GoSort
 
 namespace GoNeat
 open Scalar
@@ -75,23 +75,7 @@ structure EpochOpts (W : Type) where
   mateOnlyProb : W
   mopts : MutOpts W
 
-/-! ### sorting (Go's `insertionSort`, used by `sort.Sort` for n ≤ 12; stable) -/
-
-/-- Go's insertion sort written directly: process elements left to right, each moved left past all
-    elements it is strictly less than -/
-def goInsertionSort {α} (less : α → α → Bool) (l : List α) : List α :=
-  l.foldl (fun sorted x =>
-    -- move x left while less x (its left neighbour)
-    let rec go (revLeft : List α) (acc : List α) : List α :=
-      match revLeft with
-      | [] => x :: acc
-      | y :: ys => if less x y then go ys (y :: acc) else revLeft.reverse ++ x :: acc
-    go sorted.reverse []) []
-
-/-- two distinct positions compare equal under the sort order -/
-def sortHasTie {α} (less : α → α → Bool) : List α → Bool
-  | [] => false
-  | x :: xs => xs.any (fun y => !less x y && !less y x) || sortHasTie less xs
+/-! ### sorting: `goSort` (Model/GoSort.lean) models `sort.Sort` -/
 
 /-- `Organisms.Less` -/
 def orgLess (a b : Org W) : Bool :=
@@ -100,7 +84,7 @@ def orgLess (a b : Org W) : Bool :=
   else false
 
 /-- `sort.Sort(sort.Reverse(s.Organisms))` -/
-def sortOrgsDesc (l : List (Org W)) : List (Org W) := goInsertionSort (fun a b => orgLess b a) l
+def sortOrgsDesc (l : List (Org W)) : List (Org W) := goSort (fun a b => orgLess b a) l
 
 /-- `byOrganismOrigFitness.Less` (species must be non-empty) -/
 def speciesLess (a b : Species W) : Bool :=
@@ -111,7 +95,7 @@ def speciesLess (a b : Species W) : Bool :=
     else false
   | _, _ => false
 
-def sortSpeciesDesc (l : List (Species W)) : List (Species W) := goInsertionSort (fun a b => speciesLess b a) l
+def sortSpeciesDesc (l : List (Species W)) : List (Species W) := goSort (fun a b => speciesLess b a) l
 
 /-! ### Species.adjustFitness -/
 
